@@ -166,22 +166,23 @@ Definition visit_gs_post9 (g : nat) : SE v999 unit :=
 
 (* visit_st_pre (234-251) *)
 Definition visit_st_pre9 (n : st_node) : SE v999 unit :=
-  match tn_id n, tn_ctl n, tn_vriic n with
-  | Some id, Some ctl, Some vr =>
+  match tn_id n, tn_ctl n with
+  | Some id, Some ctl =>
       dos ak2 <- se_lift (
         do s <- seg_set_opt (parse_seg D (l "AK2")) "01" (Some id);
         do s <- seg_set_opt s "02" (Some (strip_ws ctl));
-        seg_set_opt s "03" (Some vr));
+        match tn_vriic n with Some vr => seg_set_opt s "03" (Some vr) | None => Ok s end);   (* fix 53b77cf: AK203 omitted *)
       wr_write ak2
-  | _, _, _ => se_raise EngineError
+  | _, _ => se_raise EngineError
   end.
 
 (* __get_st_errors (253-272) *)
 Definition get_st_errors9 (h : errh) (n : st_node) : result (list str) :=
   let c5 := if 0 <? st_child_err_count h n then [l "5"] else [] in
   do more <- element_codes (fun e msg =>
-      if contains (l "ST") msg then do c <- dict_get st_ele_err_map (en_pos e); Ok [c]
-      else if contains (l "SE") msg then do c <- dict_get se_ele_err_map (en_pos e); Ok [c]
+      (* fix c6c17ae: positions without a set-level code contribute nothing *)
+      if contains (l "ST") msg then (if dict_has st_ele_err_map (en_pos e) then do c <- dict_get st_ele_err_map (en_pos e); Ok [c] else Ok [])
+      else if contains (l "SE") msg then (if dict_has se_ele_err_map (en_pos e) then do c <- dict_get se_ele_err_map (en_pos e); Ok [c] else Ok [])
       else Ok []) (ele_nodes h (tn_elements n));
   Ok (sorted_set (codes2 (tn_errors n) ++ c5 ++ more)).
 
